@@ -108,7 +108,7 @@ class Event(Generic[V]):
         in μSim. Exceptions are propagated between activities and should be handled
         using ``try``/``except`` error handlers.
     """
-    __slots__ = 'env', 'callbacks', '__usimpy_flag__', '_value', 'defused'
+    __slots__ = 'env', 'callbacks', '__usimpy_flag__', '_value', '_traceback', 'defused'
 
     def __init__(self: E, env: 'Environment'):
         self.__usimpy_flag__ = Flag()
@@ -117,6 +117,7 @@ class Event(Generic[V]):
         #: List of callbacks to run when the event is triggered
         self.callbacks = []  # type: List[Callable[[E], None]]
         self._value = None  # type: Optional[Tuple[V, Optional[BaseException]]]
+        self._traceback = None
         #: Whether a failure of this event has been handled
         self.defused = False
 
@@ -144,7 +145,9 @@ class Event(Generic[V]):
         if error is not None:
             # the waiter will handle our exception
             self.defused = True
-            raise error
+            # every waiter gets the failure as it was set - not extended by the
+            # frames of other activities that waited for (and handled) it before
+            raise error.with_traceback(self._traceback)
         else:
             return result  # noqa: B901
 
@@ -216,6 +219,7 @@ class Event(Generic[V]):
         """
         assert self._value is None, 'cannot trigger already triggered event'
         self._value = event._value
+        self._traceback = event._traceback
         self._trigger()
         return self  # simpy.Event docs say this, code does not
 
@@ -243,6 +247,7 @@ class Event(Generic[V]):
                 f' not {exception.__class__.__name__!r}'
             )
         self._value = None, exception
+        self._traceback = exception.__traceback__
         self._trigger()
         return self
 
